@@ -58,6 +58,8 @@ pub fn step(wide: bool) -> BoxedStrategy<Step> {
             1 => Just(Step::Last),
             1 => Just(Step::Fold),
             1 => Just(Step::RevCollect),
+            1 => Just(Step::RFold),
+            1 => Just(Step::RevLast),
             1 => (0u8..4).prop_map(Step::Skip),
             1 => (0u8..3).prop_map(Step::StepBy),
         ]
